@@ -10,7 +10,7 @@ from sa.analysis import VERSIONS, Analysis, vname
 from sa.feval import FevalError, feval
 from sa.model import AnalysisError, FunctionInfo, loc, norm_src
 
-from .encode_model import inline_locals
+from .encode_model import guards_of, inline_locals
 
 # ------------------------------------------------------------------ linear forms over P (posonly), A (argcount), K (kwonly)
 
@@ -428,6 +428,10 @@ def run(an: Analysis, rep):
     for V in VERSIONS:
         rep.run(_c01.r014, an, _SR4(rep, "R04.F", "every flag a function's code object can legitimately carry is representable (shared with C01's R01.4): otherwise from_code raises and there is no signature / docstring / kind to report"), V)
     from .common import field_rewrite_rule, substring_rule
+    from .common import rejection_paths_rule
+    from . import c02 as _c02
+    rep.run(rejection_paths_rule, an, _SR4(rep, "R04.R", "every place where from_code can stop with an exception is one confirmed by reading (shared with C02's R02.R): a function whose code object is "
+                                                        "refused has no decoded signature, docstring or kind at all"), "R02.R", ["from_code"], _c02.DECODER_REJECTIONS, "from_code")
     rep.run(field_rewrite_rule, an, rep, "R04.8")
     rep.run(substring_rule, an, rep, "R04.9", ["parameters", "args_len"])
     for fn in (r041, r041_input, r041_unconditional, r042, r043, r044, r045, r046, r046_kind, r046_module_await, r047):
@@ -682,6 +686,11 @@ def r045(an, rep):
                 for fl, a in zip(fields, n.args):
                     kws[fl] = a
                 if "docstring" not in kws:
+                    done = True
+                    rep.add("R04.5", f"{f.qual}::every decoded Function is given its docstring", False, loc(f.module, n),
+                            f"`{norm_src(n)[:60]}` builds the Function of a decoded code object without a docstring: on this path (guards: "
+                            f"{[norm_src(t)[:40] for t, pos in guards_of(f.module, f, n)][-2:]}) docstring is None whatever co_consts[0] holds - a generator or coroutine function with a docstring "
+                            f"decodes as one without, and the constant is listed as unreferenced")
                     continue
                 e = inline_locals(f.node, kws["docstring"], keep_calls=True)
                 from sa.feval import PureEval
@@ -689,7 +698,9 @@ def r045(an, rep):
                 def resolve(name, _f=f):
                     r = an.prog.resolve_global(_f.module, name, _f)
                     return r[1].node if r and r[0] == "func" else None
-                pe = PureEval(resolve)
+                from sa.feval import BlockEval as _BE
+                pe = _BE(resolve)
+                pe.arbitrary_pop = True
                 free = sorted({x.id for x in ast.walk(e) if isinstance(x, ast.Name)} - {"isinstance", "str", "len", "type", "bool"} - {n_ for n_ in {x.id for x in ast.walk(e) if isinstance(x, ast.Name)} if resolve(n_) is not None})
                 # the table of constants is the name subscripted with 0; every other free local is modelled as an Args value
                 tabs = {x.value.id for x in ast.walk(e) if isinstance(x, ast.Subscript) and isinstance(x.value, ast.Name) and isinstance(x.slice, ast.Constant) and x.slice.value == 0}
@@ -713,18 +724,24 @@ def r045(an, rep):
                 ]
                 bad = []
                 cases = [(), ("d",), (1,), (None, "x"), (b"x",), ("", 1), (("a",),)]
+                # every other local the expression reads is given each kind of value the decoder has at hand: the decoded Args, the function-type flag, a flag set
+                models = args_models + ["GENERATOR", "COROUTINE", "ASYNC_GENERATOR", None, frozenset(), frozenset({"GENERATOR"}), frozenset({"NESTED"}), ("set", "GENERATOR"), ("set", "COROUTINE")]
                 for c in cases:
-                    for am in (args_models if others else [None]):
+                    n_ok = 0
+                    for combo in (itertools.product(models, repeat=len(others)) if others else [()]):
                         env = {tab: c}
-                        for o in others:
-                            env[o] = am
+                        env.update({o: (set(v[1:]) if isinstance(v, tuple) and v and v[0] == "set" else v) for o, v in zip(others, combo)})
                         try:
                             got = pe.ev(e, env)
-                        except Exception as ex:
-                            raise AnalysisError(f"{f.qual}: docstring expression {norm_src(e)} not evaluable: {ex}")
+                        except Exception:
+                            continue  # ill-typed combination for this expression
+                        n_ok += 1
                         want = c[0] if c and type(c[0]) is str else None
                         if got != want:
-                            bad.append(f"constants={c!r}" + (f", parameters {am['positional_or_keyword'] + am['keyword_only']}" if am else "") + f": docstring={got!r}, CPython's __doc__ is {want!r}")
+                            shown = ", ".join(f"{o}={v!r}" if not isinstance(v, dict) else f"{o}=<Args {v['positional_or_keyword'] + v['keyword_only']}>" for o, v in zip(others, combo))
+                            bad.append(f"constants={c!r}" + (f", {shown}" if shown else "") + f": docstring={got!r}, CPython's __doc__ is {want!r}")
+                    if not n_ok:
+                        raise AnalysisError(f"{f.qual}: docstring expression {norm_src(e)} not evaluable")
                 done = True
                 rep.add("R04.5", f"{f.qual}::docstring rule", not bad, loc(f.module, kws["docstring"]),
                         "; ".join(bad[:2]) if bad else f"docstring = {norm_src(e)} agrees with func_new on {len(cases)} constant tables")
